@@ -71,7 +71,7 @@ CLAIMS = {
             "combination, any number of entries): returns g ==> sentinel 00, addresses absolute and contiguous, declared <= "
             "stored, nothing follows the last payload, both MACs equal MAC(k, index/zero IV, covered bytes), content = what "
             "the fields say; 'if' direction is C01.  Framing edits (entry/description/tag lengths, duplicate tags, directory "
-            "size): bounded structured-edit monitor against the independent validator with recomputed MACs",
+            "size): bounded structured-edit monitor against the independent validator with recomputed MACs ; ADDED: symbolic padding between sentinel and end of directory (accept => none); structured edits also with MAC checking off, entry / directory padding edits",
             "DESIGN.md section 9 C05",
             TB + "; framing of the directory intact in the L1 part; spec/layout.parse_body as oracle of the bounded part",
             "deductive: AST->VC, loop contracts with ghost state and an arbitrary-index (J0) invariant, z3, sharded path "
@@ -109,7 +109,7 @@ CLAIMS = {
             "keys, value ids and contents of symbolic length 0..254 and every mix of set / delete-value / delete-key: order "
             "(deletes first, each group sorted, each entry once), no empty block, every block <= 117 bytes whenever each "
             "entry fits, total-size bounds; decoding equality against the independent decoder spec/tlvcfg.py and larger "
-            "dictionaries (4..40 entries) by the bounded monitor; set_config's framing is proved under C06",
+            "dictionaries (4..40 entries) by the bounded monitor; set_config's framing is proved under C06 ; ADDED: conf_dict_to_tlv for ANY number of entries - both loops under loop contracts (parts of the entries; no empty block; every block <= 117 bytes when every single entry fits)",
             "DESIGN.md section 9 C10",
             TB + "; bounded in the NUMBER of entries at L1 (<= 3), unbounded in sizes; list.sort executed natively (forking "
                  "comparisons)",
@@ -141,7 +141,7 @@ CLAIMS = {
             "runs; bf2_convert_payload per format on <= 2 extents (BLOB accepted only as one extent at 0, memory image in "
             "address order, compatible = raw lines); tag-type tables as ground facts.  The import state machine "
             "(parse_bf2_file, exec_bf2instrs, bf2_import, annotations) and the platform-filter rendering are checked by the "
-            "bounded monitor on grammar-generated BF2 texts against the independent model spec/bf2.py",
+            "bounded monitor on grammar-generated BF2 texts against the independent model spec/bf2.py ; ADDED: exec_bf2instrs consumption contract (REBOOT/CRC/CHECK_FWVER belong to one component) and per-section tag expectations through bf2_import",
             "DESIGN.md section 9 C13",
             TB + "; well-formed data lines; at most one gap in the L1 theorem; import state machine bounded only",
             "deductive: AST->VC with a loop contract over abstract line lists and BigConcat payloads, z3; bounded monitor"),
@@ -178,7 +178,7 @@ CLAIMS = {
             "schedule replayed on the real RWLock with real threads stepped by sys.settrace.  Curve objects: the guarantee "
             "(single-assignment publication of __coords / __precompute) by AST scan as ground obligations, the sequential "
             "results by C17, the interleavings at every source line of scale() / _maybe_precompute() against complete "
-            "operations of a second thread enumerated on the real objects (bounded)",
+            "operations of a second thread enumerated on the real objects (bounded) ; ADDED: reader-side interleavings (every reader of the coordinate tuple pre-empted before each line by a complete rescaling) - bounded",
             "DESIGN.md section 9 C20",
             "threading.Lock as a binary semaphore; configuration 2+2; CPython reference load/store atomic; the rely/guarantee "
             "argument for the curve objects is checked only on the enumerated interleavings",
@@ -201,7 +201,7 @@ CLAIMS = {
             "(3 curves quick, 17 thorough).  Key / point encodings (DER, PEM, SEC1, PKCS#8, named and explicit parameters, "
             "raw / uncompressed / compressed / hybrid) on the curves, every truncation, extension and byte mutation, and "
             "BEC2's fixed 27-byte P-256 header: bounded monitor on the real library.  Byte compatibility with the OpenSSL "
-            "binary is not a contract ; ADDED: Public_key.__init__ accepts exactly the in-range on-curve points (cofactor-1 curves), coordinates 0 included",
+            "binary is not a contract ; ADDED: Public_key.__init__ accepts exactly the in-range on-curve points (cofactor-1 curves), coordinates 0 included ; ADDED: AbstractPoint._from_hybrid / _from_compressed: accepted <=> prefix states the parity of y (square root by contract)",
             "DESIGN.md section 9 C19",
             TB + "; '%x' formatting / hexlify / unhexlify / int(.,16) by library model; key-level codecs bounded only",
             "deductive: AST->VC over ropes with a hexadecimal-text model (case split on magnitudes), z3; bounded monitor"),
